@@ -224,22 +224,20 @@ Section Model.
           end ;;
     store_no_backref m2 a v.
 
-  (* impl PartialEq for Memory *)
+  (* impl PartialEq for Memory (as repaired: two memories without backing compare by pages/endian) *)
   Definition mem_eqb (m1 m2 : mem) : bool :=
     if amap_eqb page_eqb (m_pages m1) (m_pages m2) && endian_eqb (m_end m1) (m_end m2) then
-      match m_back m1 with
-      | Some b1 => match m_back m2 with
-                   | Some b2 => backing_eqb b1 b2      (* RC::ptr_eq || == *)
-                   | None => false                     (* and_then -> None -> unwrap_or(false) *)
-                   end
-      | None => false                                  (* unwrap_or(false) *)
+      match m_back m1, m_back m2 with
+      | Some b1, Some b2 => backing_eqb b1 b2          (* RC::ptr_eq || == *)
+      | None, None => true
+      | _, _ => false
       end
     else false.
 
-  (* Memory::permissions *)
+  (* Memory::permissions (as repaired: a page without permissions of its own falls back) *)
   Definition permissions (m : mem) (a : Z) : option perm :=
-    match aget (m_pages m) (page_addr a) with
-    | Some p => p_perm p
+    match (match aget (m_pages m) (page_addr a) with Some p => p_perm p | None => None end) with
+    | Some p => Some p
     | None => ob_perm (m_back m) a
     end.
 
@@ -248,23 +246,24 @@ Section Model.
     | Some pg => mkmem (m_back m) (m_end m) (aset (m_pages m) pa (mkpage (p_cells pg) (Some p)))
     | None => mkmem (m_back m) (m_end m) (aset (m_pages m) pa (mkpage [] (Some p)))
     end.
-  (* Memory::set_permissions: `while page_address < total_length` *)
-  Fixpoint set_perm_loop (fuel : nat) (m : mem) (pa total : Z) (p : perm) : res mem :=
-    if pa <? total then
+  (* Memory::set_permissions (as repaired): `while offset < total_length`, page = page_address + offset *)
+  Fixpoint set_perm_loop (fuel : nat) (m : mem) (pa off total : Z) (p : perm) : res mem :=
+    if off <? total then
       match fuel with
       | O => Panic
-      | S f => pa' <- uadd pa PAGE_SIZE ;; set_perm_loop f (page_set_perm m pa p) pa' total p
+      | S f => x <- uadd pa off ;; off' <- uadd off PAGE_SIZE ;;
+               set_perm_loop f (page_set_perm m x p) pa off' total p
       end
     else Ok m.
   Definition set_permissions (m : mem) (a len : Z) (p : perm) : res mem :=
     let pa := page_addr a in
     total <- uadd len (a - pa) ;;
-    set_perm_loop (Z.to_nat (total / PAGE_SIZE + 1)) m pa total p.
+    set_perm_loop (Z.to_nat (total / PAGE_SIZE + 1)) m pa 0 total p.
 End Model.
 
 Arguments CVal {V} v. Arguments CRef {V} b.
 Arguments mkpage {V}. Arguments p_cells {V}. Arguments p_perm {V}.
 Arguments mkmem {V}. Arguments m_back {V}. Arguments m_end {V}. Arguments m_pages {V}.
-Arguments mnew {V}.
+Arguments mnew {V}. Arguments backrefs {V}.
 Arguments load_cell {V}. Arguments store_cell {V}.
 Arguments permissions {V}. Arguments set_permissions {V}. Arguments page_set_perm {V}. Arguments set_perm_loop {V}.
